@@ -1,6 +1,7 @@
 P = dict(
     harness='c09_values.cpp',
-    variants=['asan'],
+    variants=['asan', 'memcheck'],
+    memcheck_stride=dict(quick=100, thorough=40),
     level='exploration',
     technique='runtime monitoring: reference-model oracle (__int128 value semantics) over the complete boundary lattice of all 36 integer type pairs plus random 64-bit values, ASan/UBSan build',
     rule='cases: (type A, value A, type B, value B) for MockNamedValue::equals in both directions, (stored type, value, getter) inside a fixture test, double (a, b, tolerance) triples and a cross-type kind table; '
